@@ -4,6 +4,8 @@ known-findings plumbing."""
 import ctypes, os, sys, json, time, pickle, struct, select, signal, hashlib, tempfile, subprocess, traceback
 
 VERIF = os.path.dirname(os.path.abspath(__file__))
+# evidence and replay files of a run against a scratch tree (VERIF_REPO: seeded changes) go to that run's build cache, never into /verif
+OUTDIR = VERIF if os.path.realpath(os.environ.get('VERIF_REPO', '/repo')) == '/repo' else (os.environ.get('VERIF_BUILD') or VERIF)
 sys.path.insert(0, VERIF)
 sys.path.insert(0, os.path.join(VERIF, 'ref'))
 import build as vbuild
@@ -365,7 +367,7 @@ class Check:
         """replays each new violation, prints VIOLATION / KNOWN-FINDING lines, writes evidence; returns exit code"""
         rc = 0
         nviol = 0
-        rdir = os.path.join(VERIF, 'replay', self.prop)
+        rdir = os.path.join(OUTDIR, 'replay', self.prop)
         reported = 0
         for key, (record, msg) in sorted(self.viol.items()):
             if (self.prop, key) in self.known:
@@ -385,7 +387,7 @@ class Check:
                                    stdout=subprocess.PIPE, stderr=subprocess.STDOUT, text=True)
                 if r.returncode == 1:
                     ok = True; break
-            rel = os.path.relpath(path, VERIF)
+            rel = os.path.relpath(path, VERIF) if OUTDIR == VERIF else path
             if ok:
                 print('VIOLATION property=%s replay=%s' % (self.prop, rel))
                 print('  key=%s\n  %s' % (key, msg.replace('\n', '\n  ')[:1500]))
@@ -416,8 +418,8 @@ class Check:
               'assumptions': self.assumptions, 'wall_s': round(time.time() - self.t0, 2), 'violations': nviol,
               'violating_keys': sorted(k for k in self.viol if (self.prop, k) not in self.known)[:50],
               'known_findings_hit': sorted(k for k in self.viol if (self.prop, k) in self.known)}
-        os.makedirs(os.path.join(VERIF, 'evidence'), exist_ok=True)
-        with open(os.path.join(VERIF, 'evidence', self.prop + '.json'), 'w') as f:
+        os.makedirs(os.path.join(OUTDIR, 'evidence'), exist_ok=True)
+        with open(os.path.join(OUTDIR, 'evidence', self.prop + '.json'), 'w') as f:
             json.dump(ev, f, indent=1, default=str)
         print('%s %s: states=%d transitions=%d validated=%d evaluations=%d outcomes=%d exhaustive=%s violations=%d wall=%.1fs' % (
             self.prop, self.tier, cov['states'], cov['transitions'], cov['traces_validated_against_impl'],
